@@ -388,8 +388,12 @@ func runConvert(in *convInput) (class int, detail string, db *laptimer.DB) {
 				return
 			}
 			if in.Warm != nil {
-				// history: the same converter value has already converted another session
-				_, _ = ta.LapTimer(in.Warm.session())
+				// history: the same converter value has already converted another session (whatever
+				// became of that conversion - an unfittable predictor panics inside gonum - is not this case's business)
+				func() {
+					defer func() { _ = recover() }()
+					_, _ = ta.LapTimer(in.Warm.session())
+				}()
 			}
 			db, err = ta.LapTimer(in.session())
 		})
